@@ -30,14 +30,14 @@ func init() {
 // Blocks named by the property (pinned): every address inside is reserved.
 var c19Pinned = []string{
 	"10.0.0.0/8", "172.16.0.0/12", "192.168.0.0/16", // RFC 1918
-	"127.0.0.0/8",                                      // loopback
-	"169.254.0.0/16",                                   // link-local
-	"100.64.0.0/10",                                    // shared address space
+	"127.0.0.0/8",                                       // loopback
+	"169.254.0.0/16",                                    // link-local
+	"100.64.0.0/10",                                     // shared address space
 	"192.0.2.0/24", "198.51.100.0/24", "203.0.113.0/24", // documentation
-	"198.18.0.0/15",                                    // benchmarking
-	"224.0.0.0/4",                                      // multicast
-	"240.0.0.0/4",                                      // class E incl. broadcast
-	"0.0.0.0/8",                                        // unspecified / this network
+	"198.18.0.0/15", // benchmarking
+	"224.0.0.0/4",   // multicast
+	"240.0.0.0/4",   // class E incl. broadcast
+	"0.0.0.0/8",     // unspecified / this network
 	"::1/128", "fc00::/7", "fe80::/10", "ff00::/8", "2001:db8::/32", "2002::/16", "100::/64", "::/128",
 }
 
